@@ -63,7 +63,9 @@ class Run:
     # ---- building ----
     def build(self, cmd):
         """Build harness/cmd/<cmd> with hooks on, from /repo's current working tree."""
-        out = os.path.join(WORK, "bin", cmd)
+        # per run: checks that run at the same time never execute each other's binaries
+        os.makedirs(os.path.join(self.dir, "bin"), exist_ok=True)
+        out = os.path.join(self.dir, "bin", cmd)
         if not os.path.exists(os.path.join(HARNESS, "go.sum")) or \
                 open(os.path.join(HARNESS, "go.sum")).read() != open("/repo/go.sum").read():
             shutil.copy("/repo/go.sum", os.path.join(HARNESS, "go.sum"))
